@@ -280,7 +280,19 @@ def r2(ctx):
             owners.update(acts_for)
             ctx.ok(f"{fk}:writes-_strong_obj", "private helper called only by " + ", ".join(a.split("::")[1] for a in acts_for))
         else:
-            ctx.violation(f"{fk}:writes-_strong_obj", "_strong_obj is written outside the enumerated owners", loc)
+            extra = ""
+            if ctx.index.has(fk):
+                # say what the stray write does: a clear that leaves the state modified and attached loses pending changes
+                try:
+                    sf = ctx.func(fk)
+                    sg = ctx.cfg(sf)
+                    for c, recv in _clear_nodes(sg):
+                        if _unjustified_clear(sg, c, recv, _bool_env(sf.node)) is not None:
+                            extra = (f": it clears {recv}._strong_obj on a path where the state may stay modified and attached -- the object is then "
+                                     f"only weakly referenced and its pending change is lost when the application drops it")
+                except Exception:
+                    extra = ""
+            ctx.violation(f"{fk}:writes-_strong_obj", "_strong_obj is written outside the enumerated owners" + extra, loc)
     # every clearing site, seen in the owner with its helpers inlined
     inlined_into = {}
     for fk in sorted(owners):
